@@ -399,16 +399,15 @@ func (s *Netceptor) DialContext(ctx context.Context, node string, service string
 	}
 	close(okChan)
 	go func() {
+		// The ephemeral socket carries the QUIC connection, so it lives until that connection has ended
+		// (closed by either side or timed out) or the node shuts down. A local Close or CloseConnection
+		// signals doneChan first; returning on that signal would leave the socket registered forever.
 		select {
 		case <-qc.Context().Done():
-			_ = qs.Close()
-			_ = pc.Close()
 		case <-s.context.Done():
-			_ = qs.Close()
-			_ = pc.Close()
-		case <-doneChan:
-			return
 		}
+		_ = qs.Close()
+		_ = pc.Close()
 	}()
 	conn := &Conn{
 		s:        s,
